@@ -392,6 +392,31 @@ Definition fam_eqb (a b : qid) : bool := zlist_eqb (q_key a) (q_key b) && Z.eqb 
 Definition qid_ltb (a b : qid) : bool := if same_fam a b then fam_ltb a b else cmp_ltb a b.
 Definition qid_eqb (a b : qid) : bool := if same_fam a b then fam_eqb a b else cmp_eqb a b.
 
+(* lexicographic product of two orders given by boolean tests *)
+Definition lexp {A B : Type} (ltA eqA : A -> A -> bool) (ltB : B -> B -> bool) (x y : A * B) : bool :=
+  ltA (fst x) (fst y) || (eqA (fst x) (fst y) && ltB (snd x) (snd y)).
+Definition eqp {A B : Type} (eqA : A -> A -> bool) (eqB : B -> B -> bool) (x y : A * B) : bool :=
+  eqA (fst x) (fst y) && eqB (snd x) (snd y).
+
+(* the class part of _cmp_tuple and the table of Qid classes (type name, repr(type), family) of a population *)
+Definition ty (a : qid) : list Z * list Z := (q_tname a, q_trepr a).
+Definition ty_ltb := lexp lex_ltb zlist_eqb lex_ltb.
+Definition ty_eqb := eqp zlist_eqb zlist_eqb.
+Definition trow := (list Z * list Z * Z)%type.
+Definition row_ty (r : trow) : list Z * list Z := (fst (fst r), snd (fst r)).
+Definition row_fam (r : trow) : Z := snd r.
+Definition rows_same_fam (r1 r2 : trow) : bool := Z.ltb 0 (row_fam r1) && Z.eqb (row_fam r1) (row_fam r2).
+(* (1) the family is a function of the class; (2) a class outside a family compares the same way with every
+   class of the family (no foreign class name sorts between two classes of one family) *)
+Definition row_check (r1 r2 r3 : trow) : bool :=
+  (negb (ty_eqb (row_ty r1) (row_ty r2)) || Z.eqb (row_fam r1) (row_fam r2)) &&
+  (negb (rows_same_fam r1 r2) || rows_same_fam r1 r3 ||
+     (Bool.eqb (ty_ltb (row_ty r1) (row_ty r3)) (ty_ltb (row_ty r2) (row_ty r3)) &&
+      Bool.eqb (ty_ltb (row_ty r3) (row_ty r1)) (ty_ltb (row_ty r3) (row_ty r2)))).
+Definition fam_table_ok (tbl : list trow) : bool :=
+  forallb (fun r1 => forallb (fun r2 => forallb (row_check r1 r2) tbl) tbl) tbl.
+Definition qrow (a : qid) : trow := (q_tname a, q_trepr a, q_fam a).
+
 (* stable insertion sort with the model's order, for comparison with sorted() *)
 Fixpoint qinsert (x : qid) (l : list qid) : list qid :=
   match l with
